@@ -835,14 +835,23 @@ def rollback_cases(req):
             b.subbuild('sub', sub)
         FileBuilder.build(cache, 'n', f)
 
-    for case in (('new outputs and an overwritten foreign file', prep1, fail1),
-                 ('rebuilt output whose old copy was deleted externally', prep2, fail2, ('o',)),
-                 ('recorded directory replaced by a foreign file', prep3, fail3),
-                 ('reused and rebuilt outputs, nested failure', prep4, fail4)):
+    cases = [('new outputs and an overwritten foreign file', prep1, fail1),
+             ('rebuilt output whose old copy was deleted externally', prep2, fail2, ('o',)),
+             ('recorded directory replaced by a foreign file', prep3, fail3),
+             ('reused and rebuilt outputs, nested failure', prep4, fail4)]
+    # the case that exercises the failed obligation first (the others still run)
+    label = req.get('label', '')
+    if 'restore_all' in label:
+        cases.insert(0, cases.pop(2))
+    skip_to_write = 'cache-file-written' in label
+    first = None
+    for case in cases:
         r = run_case(*case)
         if r:
             r['evaluations'] = n
-            return r
+            if not skip_to_write:
+                return r
+            first = first or r
     # 5. D5: the cache write fails on a first build: no cache file may be left
     root = scratch()
     try:
@@ -884,6 +893,8 @@ def rollback_cases(req):
                     'evaluations': n}
     finally:
         shutil.rmtree(root, ignore_errors=True)
+    if first is not None:
+        return first
     return {'reproduced': False, 'evaluations': n}
 
 
